@@ -6,4 +6,6 @@ export CARGO_NET_OFFLINE=true
 mkdir -p .cache work evidence replays
 ( cd coq && coq_makefile -f _CoqProject -o Makefile >/dev/null && timeout 3000 make -j16 >/dev/null )
 CARGO_TARGET_DIR="$PWD/.cache/target" cargo build --offline --manifest-path harness/Cargo.toml
+# the real rcomp binary (C17 compares its output with the API's; C16 runs it)
+CARGO_TARGET_DIR="$PWD/.cache/target-repo" cargo build --offline --manifest-path /repo/Cargo.toml -p rustemo-compiler --bin rcomp
 echo setup-ok
